@@ -168,18 +168,34 @@ def exRoute2bad : Route :=
 example : ¬ RouteOK exGraph2 exParams2 exRoute2bad :=
   fun h => absurd ((route_checker_correct _ _ _).mpr h) (by decide)
 example : verdict exGraph2 exParams2 exRoute2bad = "invalid capacity" := by decide
--- with first hops supplied a first hop that is none of them is refused, whatever the graph or the hints say
-example : verdict (exGraph2 ++ [{ scid := 99, kind := .privateHop, src := 0, dst := 1, enabled := true, htlcMin := 0, htlcMax := 0, unbounded := true, cap := none, base := 0, prop := 0, cltv := 0 }]) exParams2
-    [ [ { scid := 99, node := 1, fee := 10, cltv := 40 }, { scid := 5, node := 2, fee := 600000, cltv := 18 } ] ] = "invalid chain" := by decide
+-- with first hops supplied a first hop over a channel of the GRAPH (the payer's public channel 98 to node 1, not among
+-- first_hops) is refused, whatever the graph says
+def exGraph2pub : Graph := exGraph2 ++
+  [ { scid := 98, src := 0, dst := 1, enabled := true, htlcMin := 0, htlcMax := 900000, cap := none, base := 0, prop := 0, cltv := 0 },
+    { scid := 98, src := 1, dst := 0, enabled := true, htlcMin := 0, htlcMax := 900000, cap := none, base := 0, prop := 0, cltv := 0 } ]
+example : verdict exGraph2pub { exParams2 with amount := 300000 }
+    [ [ { scid := 98, node := 1, fee := 10, cltv := 40 }, { scid := 5, node := 2, fee := 300000, cltv := 18 } ] ] = "invalid chain" := by decide
+example : verdict exGraph2pub { exParams2 with amount := 300000, hasFirst := false }
+    [ [ { scid := 98, node := 1, fee := 10, cltv := 40 }, { scid := 5, node := 2, fee := 300000, cltv := 18 } ] ] = "valid" := by decide
+-- … but a ROUTE HINT hop that starts at the payer is a way out of the payer the property names ("through the supplied first
+-- hops, route hints or blinded tails"; router tests allow_us_being_first_hint / first_hop_preferred_over_hint): accepted
+example : verdict (exGraph2 ++ [{ scid := 99, kind := .privateHop, src := 0, dst := 1, enabled := true, htlcMin := 0, htlcMax := 0, unbounded := true, cap := none, base := 0, prop := 0, cltv := 0 }])
+    { exParams2 with amount := 300000 }
+    [ [ { scid := 99, node := 1, fee := 10, cltv := 40 }, { scid := 5, node := 2, fee := 300000, cltv := 18 } ] ] = "valid" := by decide
 
-/-- Through the supplied first hops: in a route that meets the specification of a request WITH first hops,
-    every path starts with an unblinded hop that stands for one of the supplied, usable first-hop candidates to
-    that peer, named by its alias or by its real scid — never a channel of the graph or of a hint. -/
+/-- Through the supplied first hops or a route hint: in a route that meets the specification of a request WITH first hops,
+    every path starts with an unblinded hop that stands for one of the supplied, usable first-hop candidates to that peer
+    (named by its alias or by its real scid) or for the hop of a ROUTE HINT whose source is the payer — never a channel of
+    the graph.  (Until C16b the statement allowed first-hop candidates only; that demanded more than the property, which
+    names route hints as a way from the payer to the payee, and than the router's documented behaviour — KF-C16-7/A was a
+    false alarm, DESIGN 9.2.) -/
 theorem route_starts_at_supplied_first_hop (g : Graph) (p : Params) (r : Route) (h : RouteOK g p r)
     (hf : p.hasFirst = true) : ∀ path ∈ r, ∃ hd tl c, path = hd :: tl ∧ hd.blinded = false ∧ c ∈ g ∧
-      c.kind = .firstHop ∧ c.named hd.scid = true ∧ c.src = p.payer ∧ c.dst = hd.node ∧ c.enabled = true := by
+      ((c.kind = .firstHop ∧ c.named hd.scid = true) ∨ (c.kind = .privateHop ∧ c.scid = hd.scid)) ∧
+      c.src = p.payer ∧ c.dst = hd.node ∧ c.enabled = true := by
   have key : ∀ hd c, resolve g p p.payer hd = some c →
-      hd.blinded = false ∧ c ∈ g ∧ c.kind = .firstHop ∧ c.named hd.scid = true ∧ c.src = p.payer ∧ c.dst = hd.node := by
+      hd.blinded = false ∧ c ∈ g ∧ ((c.kind = .firstHop ∧ c.named hd.scid = true) ∨ (c.kind = .privateHop ∧ c.scid = hd.scid)) ∧
+        c.src = p.payer ∧ c.dst = hd.node := by
     intro hd c hr
     unfold resolve public_candidate_considered at hr
     cases hb : hd.blinded with
@@ -187,19 +203,64 @@ theorem route_starts_at_supplied_first_hop (g : Graph) (p : Params) (r : Route) 
     | false =>
       simp only [hb, hf, Bool.false_eq_true, if_false, Bool.not_true, Bool.false_or, beq_self_eq_true,
         Bool.not_false, if_true] at hr
-      have hm := List.mem_of_find?_eq_some hr
-      have hpred := List.find?_some hr
-      simp only [Bool.and_eq_true, beq_iff_eq] at hpred
-      exact ⟨rfl, hm, hpred.1.1.1, hpred.1.1.2, hpred.1.2, hpred.2⟩
+      cases hfst : g.find? (fun c => c.kind == .firstHop && c.named hd.scid && c.src == p.payer && c.dst == hd.node) with
+      | some c1 =>
+        rw [hfst] at hr
+        have hc : c1 = c := by simpa using hr
+        subst hc
+        have hm := List.mem_of_find?_eq_some hfst
+        have hpred := List.find?_some hfst
+        simp only [Bool.and_eq_true, beq_iff_eq] at hpred
+        exact ⟨rfl, hm, Or.inl ⟨hpred.1.1.1, hpred.1.1.2⟩, hpred.1.2, hpred.2⟩
+      | none =>
+        rw [hfst] at hr
+        simp only at hr
+        have hm := List.mem_of_find?_eq_some hr
+        have hpred := List.find?_some hr
+        simp only [Bool.and_eq_true, beq_iff_eq] at hpred
+        exact ⟨rfl, hm, Or.inr ⟨hpred.1.1.1, hpred.1.1.2⟩, hpred.1.2, hpred.2⟩
   intro path hp
   have hc := h.chain path hp
   cases hc with
   | last _ hd c hl hok _ _ =>
-    obtain ⟨k0, k1, k2, k3, k4, k5⟩ := key hd c hl
-    exact ⟨hd, [], c, rfl, k0, k1, k2, k3, k4, k5, hok.2.1⟩
+    obtain ⟨k0, k1, k2, k3, k4⟩ := key hd c hl
+    exact ⟨hd, [], c, rfl, k0, k1, k2, k3, k4, hok.2.1⟩
   | cons _ hd h' t c c' f _ hl hok hl' hf' hfee hcl hrest =>
-    obtain ⟨k0, k1, k2, k3, k4, k5⟩ := key hd c hl
-    exact ⟨hd, h' :: t, c, rfl, k0, k1, k2, k3, k4, k5, hok.2.1⟩
+    obtain ⟨k0, k1, k2, k3, k4⟩ := key hd c hl
+    exact ⟨hd, h' :: t, c, rfl, k0, k1, k2, k3, k4, hok.2.1⟩
+
+/-- … and in particular never over a channel of the graph: with first hops supplied the candidate a path's first hop
+    stands for is not a `publicHop` (the clause KF-C16-7/B violates: a hint NAMING the payer's public channel makes
+    get_route leave the payer over that graph channel). -/
+theorem first_hop_is_never_a_graph_channel (g : Graph) (p : Params) (r : Route) (h : RouteOK g p r)
+    (hf : p.hasFirst = true) : ∀ path ∈ r, ∀ hd tl, path = hd :: tl → ∀ c, resolve g p p.payer hd = some c → c.kind ≠ .publicHop := by
+  intro path hp hd tl he c hr
+  obtain ⟨hd', tl', c', he', _, _, hk, _⟩ := route_starts_at_supplied_first_hop g p r h hf path hp
+  have hhd : hd' = hd := by rw [he] at he'; exact (List.cons.inj he').1.symm
+  subst hhd
+  -- the resolved candidate is the one of the theorem above: re-derive its kind from `resolve`
+  unfold resolve public_candidate_considered at hr
+  cases hb : hd'.blinded with
+  | true => simp [hb] at hr
+  | false =>
+    simp only [hb, hf, Bool.false_eq_true, if_false, Bool.not_true, Bool.false_or, beq_self_eq_true,
+      Bool.not_false, if_true] at hr
+    cases hfst : g.find? (fun c => c.kind == .firstHop && c.named hd'.scid && c.src == p.payer && c.dst == hd'.node) with
+    | some c1 =>
+      rw [hfst] at hr
+      have hc : c1 = c := by simpa using hr
+      subst hc
+      have hpred := List.find?_some hfst
+      simp only [Bool.and_eq_true, beq_iff_eq] at hpred
+      rw [hpred.1.1.1]; decide
+    | none =>
+      rw [hfst] at hr
+      simp only at hr
+      have hpred := List.find?_some hr
+      simp only [Bool.and_eq_true, beq_iff_eq] at hpred
+      rw [hpred.1.1.1]; decide
+
+example : (resolve exGraph2pub exParams2 0 { scid := 98, node := 1, fee := 10, cltv := 40 }) = none := by decide
 
 example : ∃ hd tl c, exRoute2.head! = hd :: tl ∧ c ∈ exGraph2 ∧ c.kind = .firstHop ∧ c.named hd.scid = true :=
   ⟨_, _, exGraph2.head!, rfl, by decide, by decide, by decide⟩
@@ -403,6 +464,28 @@ example : aggregateFees [(1000, 10000), (500, 20000)] = some (1505, 30200) := by
 
 example : aggregateFees [(7, 250000)] = some (7, 250000) := by decide
 
+/-- Aggregating the fees of ONE hop is the identity, for every u32 policy (general form of the example above): the
+    contribution bound of the hop BEFORE the last one is computed on exactly the last hop's policy. -/
+theorem aggregate_single (b p : Nat) (hb : b < 2 ^ 32) (hp : p < 2 ^ 32) : aggregateFees [(b, p)] = some (b, p) := by
+  have h1 : agg_base_step 0 b p = some b := by
+    unfold agg_base_step chkMul64 chkAdd64
+    have e1 : (0 * (1000000 + p) < 2 ^ 64) := by omega
+    have e2 : (0 * (1000000 + p) + (1000000 - 1) < 2 ^ 64) := by omega
+    have e3 : ((0 * (1000000 + p) + (1000000 - 1)) / 1000000 + b < 2 ^ 64) := by omega
+    simp only [e1, e2, e3, if_true, Option.bind_some, Option.map_some]
+    congr 1; omega
+  have h2 : agg_prop_step 0 p = some p := by
+    unfold agg_prop_step chkMul64 chkAdd64 chkSub
+    have e1 : (0 + 1000000 < 2 ^ 64) := by omega
+    have e2 : (p + 1000000 < 2 ^ 64) := by omega
+    have e3 : ((p + 1000000) * (0 + 1000000) < 2 ^ 64) := by omega
+    have e4 : ((p + 1000000) * (0 + 1000000) + (1000000 - 1) < 2 ^ 64) := by omega
+    have e5 : 1000000 ≤ ((p + 1000000) * (0 + 1000000) + (1000000 - 1)) / 1000000 := by omega
+    simp only [e1, e2, e3, e4, e5, if_true, Option.bind_some, Option.map_some]
+    congr 1; omega
+  simp only [aggregateFees, h1, h2]
+example : aggregateFees [(4294967295, 4294967295)] = some (4294967295, 4294967295) := aggregate_single _ _ (by decide) (by decide)
+
 /-- get_route's CLTV budget for the hops before the final one (pinned statement): whatever passes the search's
     `exceeds_cltv_delta_limit` test leaves room for the final delta within max_total_cltv_expiry_delta (get_route
     refuses `max_total_cltv_expiry_delta <= final_cltv_expiry_delta` beforehand).  The C16-r3 site. -/
@@ -579,5 +662,123 @@ theorem recompute_none_only_on_fee_overflow (value : Nat) (hops : List FeeHop)
     | some st => simp
 
 example : recompute (2 ^ 63) [⟨0, 0, 0⟩, ⟨0, 2, 0⟩] = none := by decide
+
+
+/-! ## C16b — the judged findings KF-C16-7 … 11 (DESIGN 9.3): the deviation on the translated definitions, and the
+    statement the proposed repair (/verif/run/fixes/C16-*.diff) makes true -/
+
+/-- KF-C16-7/B, /C on the checker: the routes find_route returns on the two probes (harness `PROBES`) violate the chain
+    clause — the payer's public channel 3 although first_hops was supplied; the disabled direction 1 → 2 of channel 2. -/
+def kf7Graph : Graph :=
+  [ { scid := 1, src := 0, dst := 1, enabled := true, htlcMin := 0, htlcMax := 1000000, cap := none, base := 0, prop := 0, cltv := 40 },
+    { scid := 1, src := 1, dst := 0, enabled := true, htlcMin := 0, htlcMax := 1000000, cap := none, base := 0, prop := 0, cltv := 40 },
+    { scid := 2, src := 1, dst := 2, enabled := false, htlcMin := 0, htlcMax := 1000000, cap := none, base := 0, prop := 0, cltv := 40 },
+    { scid := 2, src := 2, dst := 1, enabled := true, htlcMin := 0, htlcMax := 1000000, cap := none, base := 0, prop := 0, cltv := 40 },
+    { scid := 3, src := 0, dst := 2, enabled := true, htlcMin := 0, htlcMax := 1000000, cap := none, base := 0, prop := 0, cltv := 40 },
+    { scid := 3, src := 2, dst := 0, enabled := true, htlcMin := 0, htlcMax := 1000000, cap := none, base := 0, prop := 0, cltv := 40 },
+    { scid := 2000001, alt := some 1000001, kind := .firstHop, src := 0, dst := 1, enabled := true, htlcMin := 0, htlcMax := 1000000, cap := none, base := 0, prop := 0, cltv := 0 } ]
+def kf7Params : Params :=
+  { payer := 0, payee := 2, amount := 1000, maxFee := none, maxCltv := 1008, maxPaths := 1, maxLen := 19, finalCltv := 40, excluded := [], hasFirst := true }
+theorem kf7_hint_named_graph_channel_violates_chain :
+    verdict kf7Graph kf7Params [ [ { scid := 3, node := 2, fee := 1000, cltv := 120 } ] ] = "invalid chain" ∧
+    verdict kf7Graph { kf7Params with hasFirst := false }
+      [ [ { scid := 1, node := 1, fee := 0, cltv := 40 }, { scid := 2, node := 2, fee := 1000, cltv := 120 } ] ] = "invalid chain" := by
+  constructor <;> decide
+-- the same first route is fine for a caller who did not supply first_hops, the second once the direction is enabled
+example : verdict kf7Graph { kf7Params with hasFirst := false } [ [ { scid := 3, node := 2, fee := 1000, cltv := 120 } ] ] = "valid" := by decide
+
+/-- KF-C16-8 on the translated definitions: hop maximum 5, then a hop charging 1 msat + 1 ppm. `add_entry!` admits a
+    contribution of 4 (4 + fee 1 = 5 fits, and 4 is the minimal contribution for 8 msat in 2 paths), the GENERATED
+    `hop_max_final_value_contribution` returns 3: three such paths are needed for 8 msat where max_path_count is 2. -/
+theorem kf8_contribution_rounded_below_minimum :
+    minimal_value_contribution_msat true 8 2 = 4 ∧
+    compute_fees 4 1 1 = some 1 ∧ 4 + 1 ≤ 5 ∧
+    hop_max_final_value_contribution 5 1 1 = some 3 ∧
+    3 < minimal_value_contribution_msat true 8 2 ∧
+    ([3, 3] : List Nat).sum < 8 ∧ 8 ≤ ([3, 3, 3] : List Nat).sum := by
+  refine ⟨by decide, by decide, by decide, by decide, by decide, by decide, by decide⟩
+/-- … and what the repair (drop a collected path whose recomputed contribution is below the minimal contribution)
+    re-establishes is exactly the hypothesis of `path_count_bounded`: when every collected path contributes at least
+    `minimal_value_contribution_msat`, any `max_path_count` of them already cover the amount. -/
+theorem kf8_repair_restores_count_bound (v n : Nat) (hn : 0 < n) (paths : List Nat) (hl : paths.length = n)
+    (hmin : ∀ q ∈ paths, minimal_value_contribution_msat true v n ≤ q) : v ≤ paths.sum := by
+  have hc := (min_contribution_covers true v n hn).1
+  have hs := sum_ge_length_mul _ paths hmin
+  rw [hl] at hs
+  omega
+example : ¬ (8 ≤ ([3, 3] : List Nat).sum) := by decide
+
+/-- KF-C16-9 on the checker: the route a release build returns on the probe (first hop to node 1, made for blinded path 0
+    which starts there, stitched to channel 5 → node 2 → blinded path 1) has 2 `Path::hops` where max_path_length is 1. -/
+def kf9Graph : Graph :=
+  [ { scid := 5, src := 1, dst := 2, enabled := true, htlcMin := 0, htlcMax := 1000000, cap := none, base := 1, prop := 0, cltv := 40 },
+    { scid := 5, src := 2, dst := 1, enabled := true, htlcMin := 0, htlcMax := 1000000, cap := none, base := 1, prop := 0, cltv := 40 },
+    { scid := 2000001, alt := some 1000001, kind := .firstHop, src := 0, dst := 1, enabled := true, htlcMin := 0, htlcMax := 1000000, cap := none, base := 0, prop := 0, cltv := 0 },
+    { scid := 0, kind := .blinded, src := 1, dst := 999, enabled := true, htlcMin := 0, htlcMax := 1000000, cap := none, base := 5000, prop := 0, cltv := 40 },
+    { scid := 1, kind := .blinded, src := 2, dst := 999, enabled := true, htlcMin := 0, htlcMax := 1000000, cap := none, base := 0, prop := 0, cltv := 40 } ]
+def kf9Params : Params :=
+  { payer := 0, payee := 999, amount := 1000, maxFee := none, maxCltv := 1008, maxPaths := 1, maxLen := 1, finalCltv := 0, excluded := [], hasFirst := true }
+theorem kf9_stitched_route_exceeds_max_path_length :
+    verdict kf9Graph kf9Params
+      [ [ { scid := 2000001, node := 1, fee := 1, cltv := 40 }, { scid := 5, node := 2, fee := 0, cltv := 40 }, { scid := 1, node := 999, fee := 1000, cltv := 0, blinded := true } ] ] = "invalid length" ∧
+    -- the path the payer's entry was made for is within the limit
+    verdict kf9Graph kf9Params
+      [ [ { scid := 2000001, node := 1, fee := 5000, cltv := 40 }, { scid := 0, node := 999, fee := 1000, cltv := 0, blinded := true } ] ] = "valid" := by
+  constructor <;> decide
+
+example : pathLen [ { scid := 2000001, node := 1, fee := 1, cltv := 40 }, { scid := 5, node := 2, fee := 0, cltv := 40 }, { scid := 1, node := 999, fee := 1000, cltv := 0, blinded := true } ] = 2 := by decide
+
+/-- KF-C16-10, the general bound on the translated `compute_fees`: the fee on a merged amount exceeds the sum of the parts'
+    fees by AT MOST ONE msat per hop (and is below it by the base fee saved) — the 1–2 msat by which get_route step (8)
+    pushes a hop over a limit both parts respected. -/
+theorem kf10_merged_fee_exceeds_parts_by_at_most_one (a b B P fa fb fab : Nat)
+    (ha : compute_fees a B P = some fa) (hb : compute_fees b B P = some fb) (hab : compute_fees (a + b) B P = some fab) :
+    fab ≤ fa + fb + 1 ∧ fa + fb ≤ fab + B + 1 := by
+  unfold compute_fees chkMul64 chkAdd64 at ha hb hab
+  have e : (a + b) * P = a * P + b * P := Nat.add_mul a b P
+  generalize a * P = x at ha e
+  generalize b * P = y at hb e
+  rw [e] at hab
+  by_cases h1 : x < 2 ^ 64 <;> by_cases h2 : y < 2 ^ 64 <;> by_cases h3 : x + y < 2 ^ 64 <;>
+    simp only [h1, h2, h3, if_true, if_false, Option.bind_some, Option.bind_none, reduceCtorEq] at ha hb hab
+  · split at ha <;> split at hb <;> split at hab <;> simp only [Option.some.injEq, reduceCtorEq] at ha hb hab
+    omega
+example : ∃ fa fb fab, compute_fees 1 0 918132 = some fa ∧ compute_fees 1 0 918132 = some fb ∧ compute_fees (1 + 1) 0 918132 = some fab ∧ fab = fa + fb + 1 :=
+  ⟨0, 0, 1, by decide, by decide, by decide, by decide⟩
+
+/-- … and it does exceed it: two parts of 1 msat over a 91.8132 % hop cost 0 each, merged they cost 1; on the probe the
+    merged path puts 3 msat on channel 1 whose htlc_maximum is 2 (each part alone: 1). -/
+theorem kf10_merge_pushes_hop_over_limit :
+    compute_fees 1 0 918132 = some 0 ∧ compute_fees 2 0 918132 = some 1 ∧
+    verdict
+      [ { scid := 1, src := 0, dst := 1, enabled := true, htlcMin := 0, htlcMax := 2, cap := none, base := 0, prop := 0, cltv := 40 },
+        { scid := 1, src := 1, dst := 0, enabled := true, htlcMin := 0, htlcMax := 2, cap := none, base := 0, prop := 0, cltv := 40 },
+        { scid := 2, src := 1, dst := 2, enabled := true, htlcMin := 0, htlcMax := 2, cap := none, base := 0, prop := 918132, cltv := 40 },
+        { scid := 2, src := 2, dst := 1, enabled := true, htlcMin := 0, htlcMax := 2, cap := none, base := 0, prop := 0, cltv := 40 } ]
+      { payer := 0, payee := 2, amount := 2, maxFee := none, maxCltv := 1008, maxPaths := 2, maxLen := 19, finalCltv := 40, excluded := [] }
+      [ [ { scid := 1, node := 1, fee := 1, cltv := 40 }, { scid := 2, node := 2, fee := 2, cltv := 120 } ] ] = "invalid capacity" := by
+  refine ⟨by decide, by decide, by decide⟩
+
+/-- KF-C16-11, on the translated loop body of update_value_and_recompute_fees: the amount a hop carries after the
+    recurrence is EXACTLY the larger of its own `htlc_minimum_msat` and `total_fee_paid_msat + value_msat +
+    extra_contribution_msat` (= `value_contribution_msat + hop.next_hops_fee_msat`, what get_route books as used liquidity).
+    So the booking undercounts precisely when the hop was raised to its own minimum, and the repaired booking
+    `max(value_contribution_msat + next_hops_fee_msat, htlc_minimum_msat)` is the amount carried. -/
+theorem kf11_hop_amount_is_max_of_minimum_and_booking (value : Nat) (h : FeeHop) (lastHop : Bool) (st : St) :
+    (hopStep value h lastHop st).amt = max h.htlcMin (cur_hop_transferred_amount_msat st.totalFeePaid value st.extra) := by
+  unfold hopStep chkSub
+  by_cases hle : cur_hop_transferred_amount_msat st.totalFeePaid value st.extra ≤ h.htlcMin
+  · simp only [hle, if_true]
+    cases lastHop <;> simp only [Bool.false_eq_true, if_false, if_true] <;> omega
+  · simp only [hle, if_false]
+    omega
+example : (hopStep 3 ⟨0, 0, 5⟩ false { totalFeePaid := 1, extra := 0, nextUseFee := 0, fees := [], amts := [] }).amt = 5 := by decide
+
+/-- … on the probe path (first hop with minimum 5, a hop of maximum 5, a hop charging 1 msat + 1 ppm; value 3 after the
+    rounding of KF-C16-8): the first hop carries 5, the booking `3 + 1` says 4. -/
+theorem kf11_own_minimum_raise_undercounted :
+    recompute 3 [⟨0, 0, 5⟩, ⟨0, 0, 0⟩, ⟨1, 1, 0⟩] = some { fees := [1, 1, 3], amts := [5, 4, 3], ret := 3 } ∧
+    cur_hop_transferred_amount_msat 1 3 0 = 4 ∧ 4 < 5 ∧ 5 + 5 > 9 ∧ 4 + 4 ≤ 9 := by
+  refine ⟨by decide, by decide, by decide, by decide, by decide⟩
 
 end Ldk.C16
